@@ -391,7 +391,7 @@ def direct_mutations(rng):
              {'name': 'owner', 'type': 'ForeignKey', 'attrs': {'null': True}, 'related': 'vapp.Alpha'}]}]}]}
     old = sigs.sig_from_spec(spec)
     k = rng.choice(['check', 'check', 'index_cond', 'index_expr', 'unique', 'add_str', 'change_str', 'together', 'together',
-                    'rename_field', 'rename_field', 'rename_model', 'change_plain', 'add_plain'])
+                    'rename_field', 'rename_field', 'rename_model', 'change_plain', 'add_plain', 'add_custom', 'add_custom'])
     q = values.gen_q_ops(rng) if rng.random() < 0.7 else values.gen_q(rng)
     if k == 'check':
         mu = M.ChangeMeta('Alpha', 'constraints', [{'type': models.CheckConstraint, 'name': 'chk_%d' % rng.randint(1, 9),
@@ -435,6 +435,17 @@ def direct_mutations(rng):
                 attrs[a] = rng.choice(vals)
         mu = M.ChangeField('Alpha', rng.choice(['name', 'owner']) if 'max_length' not in attrs else 'name',
                            **(attrs or {'db_index': True}))
+        v = None
+    elif k == 'add_custom':
+        # project-defined field classes, some of them named like a class Django exports
+        from .. import customfields
+        name = rng.choice(['ShortCodeField', 'CountField', 'JSONField', 'UUIDField', 'JSONField'])
+        cls = getattr(customfields, name)
+        kw = {'max_length': 36} if issubclass(cls, models.CharField) else {}
+        if rng.random() < 0.5:
+            mu = M.AddField('Alpha', 'extra3', cls, null=True, **kw)
+        else:
+            mu = M.ChangeField('Alpha', 'name', field_type=cls, null=True, **kw)
         v = None
     elif k == 'add_plain':
         mu = M.AddField('Alpha', 'extra2', models.IntegerField, null=True, db_index=rng.choice([True, False]),
